@@ -620,6 +620,10 @@ def _read_jsonl(path):
         return [json.loads(ln) for ln in f if ln.strip()]
 
 
+class _StageCrash(Exception):
+    pass
+
+
 class _FakeTime:
     """Stands in for the `time` module inside orchestrator.core: perf_counter is the scripted clock."""
 
@@ -653,7 +657,10 @@ def check_turn(case, rec=None):
             # the one-shot RAG refinement re-enters retrieval from inside T3 (after deliberation): part of T3, not a stage
             tag = "rag" if (name == "T2" and "T3" in calls) else name
             calls.append(tag)
-            r = fn(*a, **k)
+            try:
+                r = fn(*a, **k)
+            except Exception as e:  # a crash INSIDE a stage is that stage's property (C11-C13), not scheduling
+                raise _StageCrash(f"{tag}: {type(e).__name__}: {e}") from e
             results.setdefault(tag, r)
             ft.ms += int(case["dur"][name])
             at_ms[tag] = ft.ms
@@ -689,6 +696,11 @@ def check_turn(case, rec=None):
             core.time = ft
             try:
                 res = core.Orchestrator().run_turn(ctx, state, case["text"])
+            except _StageCrash as e:
+                if rec is not None:
+                    rec.case(nontrivial=False, labels=["discarded:stage-raised"])
+                    rec.note("stage_raised_example", str(e)[:300])
+                return
             except Exception as e:
                 raise Violation(f"scheduled turn raised {type(e).__name__}: {e} after stages {calls}", case, "turn-raises")
         finally:
@@ -789,6 +801,9 @@ def check_turn(case, rec=None):
             labels.append("t2-hits-used")
         if rag:
             labels.append("rag-reentry")
+        for key in ("t1_pops", "t1_iters"):
+            if slice_budgets.get(key) is not None and int(m1[key[3:]]) > slice_budgets[key]:
+                labels.append(f"aggregate-over-budget:{key}(undocumented)")
         if int(m1["pops"]) > 0:
             labels.append("t1-pops>0")
         nt = (reason is not None and reason != "QUANTUM_EXCEEDED") or bool(clamp)
@@ -812,7 +827,7 @@ SUBCHECKS = [
                             ((5,), (1, 2), (0, 1, 5), (0, 1, 5, 7), 400_000),
                             ((2, 3), (4, 5), (0, 1, 5), (0, 1, 5, 7), 400_000)]},
         shards_quick=8, shards_thorough=16, exhaustive=True, replay=replay_history),
-    Sub("machine", sub_machine, quick={"n": 64, "steps": 300}, thorough={"n": 700, "steps": 400}, shards_quick=4,
+    Sub("machine", sub_machine, quick={"n": 75, "steps": 300}, thorough={"n": 700, "steps": 400}, shards_quick=4,
         shards_thorough=16, replay=replay_history),
     Sub("decision", sub_decision, quick={"n": 1250}, thorough={"n": 15000}, shards_quick=4, shards_thorough=16,
         replay=replay_decision),
